@@ -183,6 +183,11 @@ func run(ci any, r *mon.Rec) {
 				try(append(append([]byte{}, reply...), libx.RandBytes(rng, k)...), "extend", k)
 			}
 		}
+		// ... and extended at the front: a stray byte or two (line noise, a leftover of the previous exchange) before an
+		// otherwise intact frame
+		for _, pre := range [][]byte{{0x00}, {0xFF}, {reply[0]}, {byte(rng.Intn(256))}, {0x00, 0x00}, libx.RandBytes(rng, 2)} {
+			try(append(append([]byte{}, pre...), reply...), "extend-front", len(pre))
+		}
 	}
 	r.Cover("kind", c.Kind)
 	if c.Size == 0 && c.Kind == "bitflip" {
